@@ -143,18 +143,20 @@ type Samp struct {
 }
 
 type Resp struct {
-	Code    int      `json:"code"`
-	Msg     string   `json:"msg"`
-	Panic   bool     `json:"panic"`
-	Fams    []FamDef `json:"fams"`
-	Names   []j.B    `json:"names"`
-	Entries []int    `json:"entries"`
-	Matched bool     `json:"matched"`
-	Row     []Col    `json:"row"`
-	Rows    []Row    `json:"rows"`
-	Chunks  []Chunk  `json:"chunks"`
-	Samp    []Samp   `json:"samp"`
-	NMsgs   int      `json:"nmsgs"`
+	Code       int      `json:"code"`
+	Msg        string   `json:"msg"`
+	Panic      bool     `json:"panic"`
+	Fams       []FamDef `json:"fams"`
+	Names      []j.B    `json:"names"`
+	Entries    []int    `json:"entries"`
+	Matched    bool     `json:"matched"`
+	TokFor     j.B      `json:"tokFor"`     // GenerateToken: the table name this token string has been issued for (first sighting wins)
+	Consistent bool     `json:"consistent"` // CheckConsistency
+	Row        []Col    `json:"row"`
+	Rows       []Row    `json:"rows"`
+	Chunks     []Chunk  `json:"chunks"`
+	Samp       []Samp   `json:"samp"`
+	NMsgs      int      `json:"nmsgs"`
 }
 
 type ObsTable struct {
@@ -216,13 +218,15 @@ type Op struct {
 	Filter    *Filter    `json:"filter"`
 	FamOrders []FamOrder `json:"famOrders"`
 	Idle      bool       `json:"idle"`
+	TokFor    j.B        `json:"tokFor"`  // CheckConsistency: present the token last issued for this table name ...
+	Genuine   bool       `json:"genuine"` // ... or (false) a string the service never issued
 
 	// Crash events (C08)
 	HasInflight bool   `json:"hasInflight"`
 	Inflight    *Op    `json:"inflight"`
 	Started     bool   `json:"started"`
 	Point       string `json:"point"` // where the process was killed: "boundary", "clean" or <hook point>#<n>
-	WantChunks bool      `json:"-"`
+	WantChunks  bool   `json:"-"`
 
 	Resp *Resp `json:"resp,omitempty"`
 	Obs  *Obs  `json:"obs,omitempty"`
@@ -230,22 +234,24 @@ type Op struct {
 
 // which fields each record kind carries in the trace (the TLA+ side touches only these)
 var opFields = map[string][]string{
-	"Reset":           {},
-	"CreateTable":     {"t", "parent", "fams"},
-	"GetTable":        {"t"},
-	"ListTables":      {"parent"},
-	"DeleteTable":     {"t"},
-	"ModifyFamilies":  {"t", "mods"},
-	"DropRowRange":    {"t", "all", "hasPrefix", "prefix"},
-	"MutateRow":       {"t", "k", "muts", "now"},
-	"MutateRows":      {"t", "entries", "now"},
-	"CheckAndMutate":  {"t", "k", "hasPred", "pred", "tm", "fm", "famOrder", "now"},
-	"ReadModifyWrite": {"t", "k", "rules", "now"},
-	"ReadRows":        {"t", "rs", "limit", "hasFilter", "filter", "famOrders"},
-	"SampleRowKeys":   {"t"},
-	"GcPass":          {"t", "now"},
-	"GcAuto":          {"t", "now", "idle"},
-	"Crash":           {"hasInflight", "inflight", "started", "point"},
+	"Reset":            {},
+	"CreateTable":      {"t", "parent", "fams"},
+	"GetTable":         {"t"},
+	"ListTables":       {"parent"},
+	"DeleteTable":      {"t"},
+	"GenerateToken":    {"t"},
+	"CheckConsistency": {"t", "tokFor", "genuine"},
+	"ModifyFamilies":   {"t", "mods"},
+	"DropRowRange":     {"t", "all", "hasPrefix", "prefix"},
+	"MutateRow":        {"t", "k", "muts", "now"},
+	"MutateRows":       {"t", "entries", "now"},
+	"CheckAndMutate":   {"t", "k", "hasPred", "pred", "tm", "fm", "famOrder", "now"},
+	"ReadModifyWrite":  {"t", "k", "rules", "now"},
+	"ReadRows":         {"t", "rs", "limit", "hasFilter", "filter", "famOrders"},
+	"SampleRowKeys":    {"t"},
+	"GcPass":           {"t", "now"},
+	"GcAuto":           {"t", "now", "idle"},
+	"Crash":            {"hasInflight", "inflight", "started", "point"},
 }
 
 var mutFields = map[string][]string{
